@@ -10,9 +10,9 @@
      ordered_map_valid_indexed_stream / ordered_map_valid_indexed_partial   operations.py:490-615
 
    Two versions of the drivers are kept side by side (`version`):
-     Orig   the code as found at the pinned commit (defects F-C04a, F-C04b, F-C04c, F-C12b);
-     Fixed  the code after work/C04/fix-F-C04a.diff, fix-F-C04b.diff, fix-F-C12b.diff.
-   The numba kernels are identical in both versions.
+     Orig   the code as found at the pinned commit (defects F-C04a, F-C04b, F-C04c, F-C04d, F-C12b);
+     Fixed  the code after work/C04/fix-F-C04a.diff, fix-F-C04b.diff, fix-F-C04d.diff, fix-F-C12b.diff.
+   The numba kernels are identical in both versions except safe_map_values (one line, F-C04d).
 
    Element type: the non-indexed functions are polymorphic in the element type A (Z for
    numeric/bool columns, list Z = bytes for fixed strings).  `empty` is the element numpy's
@@ -163,10 +163,15 @@ Fixpoint smv_loop (n:nat) (data:list A) (map_:list Z) (flt:list bool) (i:Z) (ev:
     smv_loop n' data map_ flt (i + 1) ev r'
   end.
 
-Definition safe_map_values (data:list A) (map_:list Z) (flt:list bool) (empty_value:option A)
+(* empty_val = result[0] (Orig: out of bounds when the map is empty, F-C04d);
+               np.zeros(1, dtype)[0] (Fixed) *)
+Definition safe_map_values (ver:version) (data:list A) (map_:list Z) (flt:list bool) (empty_value:option A)
   : res (list A) :=
   let result := map (fun _ => empty) map_ in
-  do ev <- match empty_value with None => get 200 result 0 | Some e => Ok e end;
+  do ev <- match empty_value with
+           | None => match ver with Orig => get 200 result 0 | Fixed => Ok empty end
+           | Some e => Ok e
+           end;
   smv_loop (length map_) data map_ flt 0 ev result.
 
 (* ---- map_valid (kernel): operations.py:328-335 (result=None) --------------------- *)
